@@ -186,6 +186,12 @@ func genRecord(o *Out, seqlen int, nfeat int) seqio.GenBank {
 	var res []byte
 	if seqlen > 0 {
 		res = residues("acgtacgtnnryACGT", seqlen, r.Intn(16))
+		if r.Intn(6) == 0 {
+			// a record that carries both a CONTIG line and residues (e.g. a
+			// CONTIG-only record after an insertion)
+			h := r.Intn(1000)
+			f.Contig = seqio.Contig{Accession: rstr(r, alWord+".", 1, 12), Region: gts.Segment{h, h + 1 + r.Intn(100000)}}
+		}
 	} else if r.Intn(2) == 0 {
 		// CONTIG-only record
 		h := r.Intn(1000)
